@@ -1,4 +1,5 @@
 import Goat.Model.IntMap
+import Goat.Model.Struct
 /-!
 # C12 — struct fields are independent, typed, and shared through references
 
@@ -22,11 +23,19 @@ which guarantees the empty slot) and updates the residents like a finite map (`s
 `set_get_same`, `set_get_other`); from a fresh table (`new_Inv`) any history of `Set`s answers
 every `Get` like the finite map with those writes (`history_refines`).
 
+Struct layer (end of this file, over `Model/Struct.lean`): `assign_post` (the store behind `x.f = v`
+never fails, changes that field only and never creates a field), `setIndex_spec` (a store through
+any alias of an instance is seen through every alias, touches no other field and no other
+instance, for any conversion), `alloc_zero`, `alloc_inv` (a new instance has exactly the fields of
+its type, at their zero values), `method_on_every_instance` (a method added to the type — also
+after instances exist — is found on every instance and bound to that instance),
+`addMethod_keeps_fields`.
+
 Not proved: `Delete` (backward shift) — the VM never deletes from a field table; it is covered by
 the slot-for-slot correspondence only.
 -/
 namespace Goat.Props.C12
-open Goat.IntMap
+open Goat.IntMap Goat.Struct
 
 variable {V : Type}
 
@@ -262,7 +271,7 @@ end Goat.Props.C12
 /-! ## The write side: insertion (displacement walk), resize, and refinement to a finite map -/
 
 namespace Goat.Props.C12
-open Goat.IntMap
+open Goat.IntMap Goat.Struct
 variable {V : Type}
 
 def Emp (pairs : List (Pair V)) (s : Nat) : Prop := ∃ p, pairs[s]? = some p ∧ p.distance = 0
@@ -1052,6 +1061,181 @@ theorem history_refines [Inhabited V] (alloc : Nat) (ops : List (Int × V)) :
     · simp [List.foldlM_cons, hs, hf]
     · intro k; rw [hspecm k]; simp
 
+/-! ### Assign: the store behind `x.f = v` (structT.SetIndex = Fields.Assign) -/
+
+/-- **assign_post.** Under the invariant `Assign k f` never fails and keeps the invariant; a
+    resident key's value becomes `f` of the old one, nothing else changes; a key that is not a
+    field of the table is NOT created (the table is returned as it is). -/
+theorem assign_post (m : IM V) (h : Inv m) (k : Int) (f : V → V) :
+    ∃ m', m.assign k f = some m' ∧ Inv m' ∧ m'.size = m.size ∧ m'.total = m.total ∧
+      m'.get k = (m.get k).map f ∧ ∀ k', k' ≠ k → m'.get k' = m.get k' := by
+  have hri := h.readInv
+  obtain ⟨r, hr⟩ := find_total m hri k
+  unfold IM.assign
+  rw [hr]
+  cases r with
+  | found i =>
+    obtain ⟨p, hp, hpd, hpk⟩ := probe_found_sound m.pairs k _ _ i hr
+    simp only [hp]
+    have hinv' : Inv ({ m with pairs := m.pairs.set i { p with value := f p.value } } : IM V) := by
+      refine ⟨core_update m.pairs h.core i p hp (f p.value), ?_, ?_, ?_⟩
+      · simp only []; rw [countOcc_update m.pairs i p hp (f p.value)]; exact h.total_eq
+      · have : ({ m with pairs := m.pairs.set i { p with value := f p.value } } : IM V).max = m.max := by
+          simp [IM.max, IM.size]
+        rw [this]; exact h.load
+      · have : ({ m with pairs := m.pairs.set i { p with value := f p.value } } : IM V).size = m.size := by
+          simp [IM.size]
+        rw [this]; exact h.room
+    have hres := res_update m.pairs h.core i p hp hpd (f p.value)
+    have hold : m.get k = some p.value := (get_iff_res m h k p.value).mpr ⟨i, p, hp, hpd, hpk, rfl⟩
+    refine ⟨_, rfl, hinv', by simp [IM.size], rfl, ?_, ?_⟩
+    · rw [hold]
+      exact (get_iff_res _ hinv' k (f p.value)).mpr ((hres k (f p.value)).mpr (Or.inl ⟨hpk.symm, rfl⟩))
+    · intro k' hne
+      have hne' : k' ≠ p.key := by rw [hpk]; exact hne
+      cases hg : m.get k' with
+      | none =>
+        cases hg' : IM.get ({ m with pairs := m.pairs.set i { p with value := f p.value } } : IM V) k' with
+        | none => rfl
+        | some w =>
+          have := (get_iff_res _ hinv' k' w).mp hg'
+          rcases (hres k' w).mp this with ⟨e, _⟩ | ⟨_, hr'⟩
+          · exact absurd e hne'
+          · have := (get_iff_res m h k' w).mpr hr'
+            rw [hg] at this; cases this
+      | some w =>
+        exact (get_iff_res _ hinv' k' w).mpr ((hres k' w).mpr (Or.inr ⟨hne', (get_iff_res m h k' w).mp hg⟩))
+  | empty e =>
+    have habs : m.get k = none := by
+      unfold IM.get; rw [hr]
+    refine ⟨m, rfl, h, rfl, rfl, ?_, fun _ _ => rfl⟩
+    rw [habs]; rfl
+
+/-- `Assign` keeps the set of fields: a key reads as present afterwards iff it did before -/
+theorem assign_keeps_fields (m m' : IM V) (h : Inv m) (k : Int) (f : V → V) (ha : m.assign k f = some m')
+    (k' : Int) : (m'.get k').isSome = (m.get k').isSome := by
+  obtain ⟨m'', ha', _, _, _, hk, ho⟩ := assign_post m h k f
+  rw [ha] at ha'; cases ha'
+  by_cases e : k' = k
+  · subst e; rw [hk]; cases m.get k' <;> rfl
+  · rw [ho k' e]
+
+/-! ### structs: a heap of instances that share a type object (Model/Struct.lean) -/
+
+/-- heap invariant: every table satisfies the table invariant and every instance has exactly the
+    fields of its type -/
+structure HInv (hp : Heap V) : Prop where
+  ty_f : Inv hp.ty.fields
+  ty_m : Inv hp.ty.methods
+  inst : ∀ (r : Nat) (m : IM V), hp.insts[r]? = some m → Inv m ∧ ∀ k, (m.get k).isSome = (hp.ty.fields.get k).isSome
+
+theorem alloc_inv (hp : Heap V) (h : HInv hp) : HInv hp.alloc.1 := by
+  refine ⟨h.ty_f, h.ty_m, ?_⟩
+  intro r m hm
+  simp only [Heap.alloc] at hm
+  by_cases hr : r < hp.insts.length
+  · rw [List.getElem?_append_left hr] at hm
+    exact h.inst r m hm
+  · rw [List.getElem?_append_right (by omega)] at hm
+    have : r - hp.insts.length = 0 := by
+      cases hx : r - hp.insts.length with
+      | zero => rfl
+      | succ n => rw [hx] at hm; simp at hm
+    rw [this] at hm
+    simp at hm; subst hm
+    exact ⟨h.ty_f, fun _ => rfl⟩
+
+/-- a fresh instance reads the zero value of every field of its type -/
+theorem alloc_zero (hp : Heap V) (k : Int) (z : V) (hz : hp.ty.fields.get k = some z) :
+    hp.alloc.1.getIndex hp.alloc.2 k = .field z := by
+  simp [Heap.alloc, Heap.getIndex, hz]
+
+/-- **field store/load.** After `x.k = v` on instance `r` (any conversion `conv`), through ANY
+    variable that holds the same reference `r` (all aliases are the number `r`):
+    field `k` reads the converted value, every other field of `r` reads as before, and every
+    other instance reads as before; the store never fails and keeps the heap invariant. -/
+theorem setIndex_spec (hp : Heap V) (h : HInv hp) (r : Nat) (k : Int) (conv : V → V → V) (v : V)
+    (hr : r < hp.insts.length) :
+    ∃ hp', hp.setIndex r k conv v = some hp' ∧ HInv hp' ∧ hp'.ty = hp.ty ∧ hp'.insts.length = hp.insts.length ∧
+      (∀ old, hp.getIndex r k = .field old → hp'.getIndex r k = .field (conv old v)) ∧
+      (∀ k', k' ≠ k → hp'.getIndex r k' = hp.getIndex r k') ∧
+      (∀ r' k', r' ≠ r → hp'.getIndex r' k' = hp.getIndex r' k') := by
+  obtain ⟨m, hm⟩ : ∃ m, hp.insts[r]? = some m := ⟨hp.insts[r], List.getElem?_eq_getElem hr⟩
+  obtain ⟨hminv, hmf⟩ := h.inst r m hm
+  obtain ⟨m', ha, hinv', _, _, hk, ho⟩ := assign_post m hminv k (fun old => conv old v)
+  have hself : (hp.insts.set r m')[r]? = some m' := List.getElem?_set_self hr
+  refine ⟨{ hp with insts := hp.insts.set r m' }, by simp [Heap.setIndex, hm, ha], ⟨h.ty_f, h.ty_m, ?_⟩, rfl,
+    by simp, ?_, ?_, ?_⟩
+  · intro r' x hx
+    have hx' : (hp.insts.set r m')[r']? = some x := hx
+    by_cases e : r' = r
+    · rw [e, hself] at hx'
+      have hxe : m' = x := Option.some.inj hx'
+      subst hxe
+      refine ⟨hinv', fun k' => ?_⟩
+      rw [assign_keeps_fields m m' hminv k _ ha k']; exact hmf k'
+    · rw [List.getElem?_set_ne (Ne.symm e)] at hx'
+      exact h.inst r' x hx'
+  · intro old hold
+    simp only [Heap.getIndex, hm] at hold
+    simp only [Heap.getIndex, hself, hk]
+    cases hg : m.get k with
+    | some w => rw [hg] at hold; cases hold; rfl
+    | none =>
+      rw [hg] at hold
+      cases hmm : hp.ty.methods.get k <;> rw [hmm] at hold <;> cases hold
+  · intro k' hne
+    simp only [Heap.getIndex, hm, hself, ho k' hne]
+  · intro r' k' hne
+    simp only [Heap.getIndex, List.getElem?_set_ne (Ne.symm hne)]
+
+/-- **methods are found on every instance**, also a method defined after the instance was made:
+    a key that is not a field resolves, on every live instance, to the method stored last under
+    that index, bound to that very instance. -/
+theorem method_on_every_instance [Inhabited V] (hp : Heap V) (h : HInv hp) (k : Int) (fn : V)
+    (hnf : hp.ty.fields.get k = none) :
+    ∃ hp', hp.addMethod k fn = some hp' ∧ HInv hp' ∧ hp'.insts = hp.insts ∧
+      ∀ r, r < hp.insts.length → hp'.getIndex r k = .method r fn := by
+  obtain ⟨ms, hs, hinv, _⟩ := set_post hp.ty.methods h.ty_m k fn
+  have hget : ms.get k = some fn := (set_get_same _ ms h.ty_m k fn hs).2
+  refine ⟨{ hp with ty := { hp.ty with methods := ms } }, by simp [Heap.addMethod, hs], ⟨h.ty_f, hinv, h.inst⟩, rfl, ?_⟩
+  intro r hr
+  obtain ⟨m, hm⟩ : ∃ m, hp.insts[r]? = some m := ⟨hp.insts[r], List.getElem?_eq_getElem hr⟩
+  have hnone : m.get k = none := by
+    have := (h.inst r m hm).2 k
+    rw [hnf] at this
+    cases hg : m.get k with
+    | none => rfl
+    | some w => rw [hg] at this; cases this
+  simp only [Heap.getIndex, hm, hnone, hget]
+
+/-- field stores never disturb method lookup and adding a method never disturbs a field -/
+theorem addMethod_keeps_fields [Inhabited V] (hp hp' : Heap V) (k : Int) (fn : V) (ha : hp.addMethod k fn = some hp')
+    (r : Nat) (k' : Int) (v : V) (hf : hp.getIndex r k' = .field v) : hp'.getIndex r k' = .field v := by
+  unfold Heap.addMethod at ha
+  cases hs : hp.ty.methods.set k fn with
+  | none => rw [hs] at ha; cases ha
+  | some ms =>
+    rw [hs] at ha; cases ha
+    cases hm : hp.insts[r]? with
+    | none => simp [Heap.getIndex, hm] at hf
+    | some m =>
+      simp only [Heap.getIndex, hm] at hf ⊢
+      cases hg : m.get k' with
+      | some w => simp only [hg] at hf ⊢; exact hf
+      | none =>
+        simp only [hg] at hf
+        cases hmm : hp.ty.methods.get k' <;> simp [hmm] at hf
+
+/-- non-vacuity: a type with fields 3 and 19 (same home slot in a 16-slot table), two instances -/
+def demoHeap : Heap Nat :=
+  let f0 : IM Nat := new 2
+  let f := ((f0.set 3 0).bind (·.set 19 0)).getD f0
+  { ty := { fields := f, methods := new 0 }, insts := [f, f] }
+
+example : (demoHeap.setIndex 0 19 (fun _ v => v) 7).map (fun hp => (hp.getIndex 0 19, hp.getIndex 0 3, hp.getIndex 1 19)
+    matches (.field 7, .field 0, .field 0)) = some true := by decide
+
 end Goat.Props.C12
 
 
@@ -1063,3 +1247,10 @@ end Goat.Props.C12
 #print axioms Goat.Props.C12.set_get_same
 #print axioms Goat.Props.C12.set_get_other
 #print axioms Goat.Props.C12.history_refines
+#print axioms Goat.Props.C12.assign_post
+#print axioms Goat.Props.C12.assign_keeps_fields
+#print axioms Goat.Props.C12.alloc_inv
+#print axioms Goat.Props.C12.alloc_zero
+#print axioms Goat.Props.C12.setIndex_spec
+#print axioms Goat.Props.C12.method_on_every_instance
+#print axioms Goat.Props.C12.addMethod_keeps_fields
